@@ -327,8 +327,11 @@ Definition rm_staged_files (c : cfg) (paths : list fpath) : M unit :=
 Definition files_below (t : tree) (dir : fpath) : list fpath :=
   map fst (filter (fun e => below dir (fst e) && match snd e with File _ => true | Dir => false end) t).
 
-(** fs.rs:823-854 rm_orphaned_files: files of the head content directory that are not in the manifest; then
-    (9d3a720, fs.rs:847-850) the empty directories an earlier failed attempt may have left *)
+(** fs.rs:849-881 rm_orphaned_files: files of the head content directory that are not in the manifest; then
+    (9d3a720, fs.rs:874-877) the empty directories an earlier failed attempt may have left.  Since a04a002 the
+    existence / file tests use util::metadata_if_exists (util.rs:50-56): only NotFound means absent, any other
+    failure of the stat aborts the commit (reads are not numbered as fault positions of their own here: see
+    Corr.CheckCommit.ORead) *)
 Definition rm_orphaned_files (c : cfg) (i : invr) : M unit :=
   let cd := c_so c ++ [head_of i; c_cdir c] in
   do t <- get_tree ;;
